@@ -1,7 +1,7 @@
 (** C10 — statements that are NOT proved (kept as definitions so that nothing unproved is
     presented as a theorem).  What is missing for each is said next to it. *)
 From Coq Require Import List ZArith Bool.
-From Kardia Require Import C10.U256 C10.EVM C10.ProofsInv C10.ProofsGas Generated.C10Facts.
+From Kardia Require Import C10.U256 C10.EVM C10.ProofsInv C10.ProofsGas C10.ProofsBal Generated.C10Facts.
 Import ListNotations.
 Local Open Scope Z_scope.
 
@@ -9,17 +9,40 @@ Section Open.
 Variable keccak : list Z -> Z.
 Variable blockhash : Z -> Z.
 
-(** every value on every stack is a 256-bit word.  NOT proved.  What exists: ProofsArith has the range
-    closure of every arithmetic/bitwise/shift instruction; ProofsBal shows balances stay non-negative
-    and their sum never grows (so BALANCE/SELFBALANCE results are bounded by the initial supply);
-    ProofsTerm bounds gas by the initial gas; ProofsMem bounds memory.  Missing: one invariant that
-    ties them together for every value an instruction can push — memory/code/calldata/returndata
-    contain bytes (0..255), storage holds words, environment values and hash results are words
-    (hypotheses on [keccak], [blockhash] and the environment), pc <= |code| + 33, |code| and
-    |calldata| < 2^256 — and its preservation by the ~30 instruction shapes.  The model is robust
-    without it: every place where a negative or oversized value could matter is guarded in EVM.v
-    (call value, memory offsets/sizes, copy lengths, call gas). *)
+(** well-formed start of a run: everything the interpreter may copy to a stack is in range *)
+Definition is_byte (b : Z) : Prop := 0 <= b < 256.
+Definition wf_account (p : Z * account) : Prop :=
+  0 <= fst p < 2 ^ 160 /\ 0 <= a_bal (snd p) /\ 0 <= a_nonce (snd p) /\
+  Forall is_byte (a_code (snd p)) /\ Z.of_nat (length (a_code (snd p))) < W /\
+  Forall (fun kv => is_word (fst kv) /\ is_word (snd kv)) (a_store (snd p)).
+Definition wf_world (w : world) : Prop :=
+  Forall wf_account (w_accts w) /\ bsum (w_accts w) < W.
+Definition wf_env (e : env) : Prop :=
+  0 <= e_origin e < 2 ^ 160 /\ 0 <= e_coinbase e < 2 ^ 160 /\ is_word (e_gasprice e) /\ is_word (e_number e) /\
+  is_word (e_time e) /\ is_word (e_gaslimit e) /\ is_word (e_chainid e).
+Definition wf_hashes : Prop := (forall l, is_word (keccak l)) /\ (forall n, is_word (blockhash n)).
+
+Inductive reachable_wf (e : env) : config -> Prop :=
+| rw_call : forall w t input g v, wf_env e -> wf_world w -> Forall is_byte input -> Z.of_nat (length input) < W ->
+                                  0 <= t < 2 ^ 160 -> 0 <= g < 2 ^ 64 -> is_word v ->
+                                  reachable_wf e (init_call e w t input g v)
+| rw_create : forall w init g v, wf_env e -> wf_world w -> Forall is_byte init -> Z.of_nat (length init) < W ->
+                                 0 <= g < 2 ^ 64 -> is_word v ->
+                                 reachable_wf e (init_create keccak e w init g v)
+| rw_step : forall c, reachable_wf e c -> reachable_wf e (step keccak blockhash e c).
+
+(** every value on every stack is a 256-bit word, from a well-formed start.  NOT proved.
+    (Without the well-formedness hypotheses the statement is false: Properties.v,
+    C10_stack_words_unconditional_refuted — GASPRICE copies a negative gas price of the environment.)
+    What exists: ProofsArith has the range closure of every arithmetic/bitwise/shift instruction; ProofsBal
+    shows balances stay non-negative and their sum never grows (so BALANCE/SELFBALANCE results are bounded by
+    the initial supply, here < 2^256); ProofsTerm bounds gas by the initial gas (< 2^64); ProofsMem bounds
+    memory.  Missing: one invariant that ties them together for every value an instruction can push —
+    memory/code/calldata/returndata contain bytes (0..255), storage holds words, pc <= |code| + 33,
+    |code|, |calldata|, |returndata| < 2^256 — and its preservation by the ~30 instruction shapes and by
+    frame entry/exit.  The model is robust without it: every place where a negative or oversized value could
+    matter is guarded in EVM.v (call value, memory offsets/sizes, copy lengths, call gas). *)
 Definition C10_stack_words_statement : Prop :=
-  forall e c f x, reachable_g keccak blockhash e c -> In f (c_frames c) -> In x (f_stack f) -> is_word x.
+  wf_hashes -> forall e c f x, reachable_wf e c -> In f (c_frames c) -> In x (f_stack f) -> is_word x.
 
 End Open.
